@@ -1080,10 +1080,15 @@ class PyCdlib:
                                                 new_record.rock_ridge.bytes_to_skip,
                                                 True, new_record.file_identifier())
                     cdfp.seek(orig_pos)
-                    block = self.pvd.track_rr_ce_entry(ce_record.bl_cont_area,
-                                                       ce_record.offset_cont_area,
-                                                       ce_record.len_cont_area)
-                    new_record.rock_ridge.update_ce_block(block)
+                    if not (dir_record.is_root and new_record.is_dot()):
+                        # The continuation area of the root's dot record (the
+                        # 'ER' entry) gets a sector of its own when extents are
+                        # assigned, just like on a new ISO; it is not part of
+                        # the shared continuation blocks.
+                        block = self.pvd.track_rr_ce_entry(ce_record.bl_cont_area,
+                                                           ce_record.offset_cont_area,
+                                                           ce_record.len_cont_area)
+                        new_record.rock_ridge.update_ce_block(block)
                     rr = new_record.rock_ridge.rr_version
 
                 self._set_rock_ridge(rr)
